@@ -217,6 +217,14 @@ func ruleC20(c *Ctx, r *Report) {
 			} else if strings.HasPrefix(k, "(*github.com/spf13/pflag.FlagSet).") && len(cc.Args) > 1 && cc.Args[1] == an.FlagAlloc["atlasPrivateKey"] {
 				okUse, why = true, "the flag binding itself (the source of the secret)"
 				construct = fmt.Sprintf("%s:flag-binding", f.Name())
+				// ... but only the bound variable may carry the secret: a default value or usage
+				// text taken from the environment is printed by every usage / help message
+				for ai, a := range cc.Args {
+					if ai != 1 && t.Has(a) {
+						okUse, why = false, "the secret is handed to the flag definition as its default value / usage text: pflag prints non-empty defaults in every usage and help message"
+						construct = fmt.Sprintf("%s:flag-default", f.Name())
+					}
+				}
 			} else {
 				why = "the secret (or a value derived from it) is passed to " + k
 				construct = fmt.Sprintf("%s:lib-call(%s)", f.Name(), shortKey(k))
@@ -311,14 +319,16 @@ func ruleC20(c *Ctx, r *Report) {
 				r.Bad("C20-R3", f.Name()+":SetBasicAuth", c.InstrPos(i), "credentials sent pre-emptively with Basic authentication")
 			case "(net/http.Header).Set", "(net/http.Header).Add":
 				nHdr++
-				name, isC := constString(cc.Args[1])
-				low := strings.ToLower(name)
-				construct := fmt.Sprintf("%s:header(%s)", f.Name(), name)
+				names, isC := possibleConstKeys(cc.Args[1])
 				if !isC {
-					r.Undecided("C20-R3", f.Name()+":header(non-constant)", c.InstrPos(i), "header name is not a constant")
+					r.Undecided("C20-R3", f.Name()+":header(non-constant)", c.InstrPos(i), "header name is not a constant (nor the key of a local map literal with constant keys)")
 					return
 				}
-				r.Check(low != "authorization" && low != "proxy-authorization", "C20-R3", construct, c.InstrPos(i), "not a credential header", "the package sets a credential header itself: credentials leave without a digest challenge")
+				for _, name := range names {
+					low := strings.ToLower(name)
+					construct := fmt.Sprintf("%s:header(%s)", f.Name(), name)
+					r.Check(low != "authorization" && low != "proxy-authorization", "C20-R3", construct, c.InstrPos(i), "not a credential header", "the package sets a credential header itself: credentials leave without a digest challenge")
+				}
 			}
 		})
 	}
@@ -368,4 +378,54 @@ func peelToCall(v ssa.Value) (*ssa.Call, bool) {
 		}
 	}
 	return nil, false
+}
+
+// possibleConstKeys: the constant strings v can be - a constant, or the key delivered by a
+// `range` over a local map all of whose updates have constant keys and which is used for
+// nothing but updates, the range and len (a literal `map[string]string{"Accept": ...}` handed
+// to a helper that sets each entry as a header).
+func possibleConstKeys(v ssa.Value) ([]string, bool) {
+	if s, ok := constString(v); ok {
+		return []string{s}, true
+	}
+	ex, ok := peel(v).(*ssa.Extract)
+	if !ok || ex.Index != 1 {
+		return nil, false
+	}
+	nx, ok := ex.Tuple.(*ssa.Next)
+	if !ok {
+		return nil, false
+	}
+	rg, ok := nx.Iter.(*ssa.Range)
+	if !ok {
+		return nil, false
+	}
+	mm, ok := peel(rg.X).(*ssa.MakeMap)
+	if !ok {
+		return nil, false
+	}
+	var keys []string
+	for _, u := range referrers(mm) {
+		switch x := u.(type) {
+		case *ssa.MapUpdate:
+			k, isC := constString(x.Key)
+			if !isC || x.Map != ssa.Value(mm) {
+				return nil, false
+			}
+			keys = append(keys, k)
+		case *ssa.Range, *ssa.DebugRef:
+		case *ssa.Call:
+			if calleeKey(&x.Call) != "builtin len" {
+				return nil, false
+			}
+		case *ssa.Store:
+			// the literal parked in a local that is only loaded for the range
+			if x.Val != ssa.Value(mm) {
+				return nil, false
+			}
+		default:
+			return nil, false
+		}
+	}
+	return keys, len(keys) > 0
 }
